@@ -204,6 +204,22 @@ func events() []*eventDef {
 				unstakeOp("pair-unstake-unstake", v1(c).Val, v1(c).Stake, 2, c.Tag+"b"),
 			}}
 		}},
+		// two DIFFERENT stake accounts unstake in one block, in both orders (their entries share one maturity
+		// queue, which is kept sorted by address: the second one is inserted before or behind the first).
+		// (Added after a seeded change - the new entry inserted through an aliased slice, overwriting a
+		// neighbour - escaped the alphabet in which a queue never held two accounts.)
+		{Name: "block[unstake(V1,S1,1);unstake(V2,S2,half)]", Kind: "pair-unstake-two-accounts", Blocks: func(c *C) [][]*op {
+			return [][]*op{{
+				unstakeOp("pair-unstake-two-accounts", v1(c).Val, v1(c).Stake, 1, c.Tag+"a"),
+				unstakeOp("pair-unstake-two-accounts", v2(c).Val, v2(c).Stake, atLeast1(locked(c, v2(c), v2(c).Stake)/2), c.Tag+"b"),
+			}}
+		}},
+		{Name: "block[unstake(V2,S2,half);unstake(V1,S1,1)]", Kind: "pair-unstake-two-accounts-reversed", Blocks: func(c *C) [][]*op {
+			return [][]*op{{
+				unstakeOp("pair-unstake-two-accounts-reversed", v2(c).Val, v2(c).Stake, atLeast1(locked(c, v2(c), v2(c).Stake)/2), c.Tag+"a"),
+				unstakeOp("pair-unstake-two-accounts-reversed", v1(c).Val, v1(c).Stake, 1, c.Tag+"b"),
+			}}
+		}},
 	}
 }
 
